@@ -3,6 +3,7 @@ import Hertz.Model.Fs
 import Hertz.Spec.Fs
 import Hertz.Gen.Fs
 import Hertz.Driver.C08Seq
+import Hertz.Driver.C08Cache
 /-!
 Driver side of C08.  Ops (see harness/c08.go):
 
@@ -12,6 +13,7 @@ Driver side of C08.  Ops (see harness/c08.go):
 * `fsreq kind a c g method path content range ae rep` → `status cl cr ar enc rawlen same body` | `PANIC`
 * `fstrav kind path`           → `status class`
 * `fsseq accept compress step*` → see `Hertz/Driver/C08Seq.lean` (trees that change between requests)
+* `fscache accept step*`        → see `Hertz/Driver/C08Cache.lean` (cache and reader reference counts, op sequences)
 
 The spec predicates are evaluated on the implementation's tokens.
 -/
@@ -156,6 +158,7 @@ def handle : Handler
     pure { out := impl, spec := spec, specNote := "a StaticFS route never serves a file outside its root",
            tag := "fstrav:" ++ kind ++ ":" ++ ":".intercalate impl }
   | "fsseq" :: rest, impl => C08Seq.handle ("fsseq" :: rest) impl
+  | "fscache" :: rest, impl => C08Cache.handle ("fscache" :: rest) impl
   | _, _ => none
 
 end Hertz.Driver.C08
